@@ -175,10 +175,7 @@ def determinism(args, drv):
                 continue
             out = os.path.join(base, f"{seed}-{tag}")
             os.makedirs(out)
-            rc, o = sh([drv.SIMREAL, "golden", "--seed", str(seed), "--tier", "quick", "--out", out, "--repo", drv.REPO, "--verif", verif], cwd=verif, env=drv.sim_env())
-            if rc != 0:
-                print("golden failed", o[-2000:])
-                return 2
+            drv.golden(out, seed, "quick")
             common = ["--seed", str(seed), "--tier", "quick", "--out", out, "--repo", drv.REPO, "--verif", verif]
             jobs = []
             for k in range(workers):
